@@ -8,7 +8,7 @@ backward: every derive input of the repository, recorded through the hook (raw n
 import core
 import streams
 
-CPFORM = {"A": "A", "B": "B", "Q": "m::q::Q", "G": "G<u8, V>", "T": "(i32, V)", "QG": "m::q::H<u8, V>"}
+CPFORM = {"A": "A", "B": "B", "Q": "m::q::Q", "G": "G<u8, V>", "T": "(i32, V)", "QG": "m::q::H<u8, V>", "LL": "L<'x, 'x>"}
 ERRFORM = {"E1": "Er", "E2": "m::Er2", "EG": "Eg<i32>", "EQG": "m::Eh<i32>"}
 LEVEL = "model_checking"
 
@@ -23,7 +23,7 @@ def concretize(c, dt):
 
 
 def observe(run, extra):
-    o = {"verdict": run["verdict"], "impls": [], "classes": []}
+    o = {"verdict": run["verdict"], "impls": [], "classes": [], "dupgens": 0}
     if run["verdict"] == "err":
         o["classes"] = streams.classify(run["msgs"])
     elif run["verdict"] == "ok":
@@ -31,6 +31,8 @@ def observe(run, extra):
             o["verdict"] = "unparseable"
         else:
             o["impls"] = streams.impl_headers(run, CPFORM, ERRFORM)
+            # an impl whose parameter list names one parameter twice is not an impl the compiler accepts (E0403)
+            o["dupgens"] = sum(1 for im in run["proj"]["impls"] if len({g["name"] for g in im["gens"]}) != len(im["gens"]))
     o.update(extra)
     return o
 
